@@ -1,3 +1,148 @@
-(* C10 -- stub while the harness is being brought up *)
-From Molli Require Import Common.ParseStr Model.Parse Model.XyzText Gen.XyzElements.
-Example C10_stub : True. Proof. exact I. Qed.
+(* C10 -- damaged or truncated input is rejected, never returned as a partial molecule.  Property theorems only.
+
+   Readers: Model/Parse.v (one line per step, folded over the lines).  `load_xyz_lines` / `load_mol2_lines` are
+   read_xyz / read_mol2 followed by the block -> molecule conversion of yield_from_xyz / yield_from_mol2; `Err`
+   stands for "an exception".  A text is WELL FORMED in the readers' own terms (xwf_text / m2wf_text: count
+   lines that int() accepts, record lines the record parsers accept), so the theorems cover bundled files as
+   well as what molli writes; C10_written_* instantiate them with the xyz writer model (Gen tables, tie T).
+   The correspondence shards (tie H) evaluate exactly these definitions against the implementation. *)
+From Coq Require Import List Bool ZArith NArith String.
+From Molli Require Import Common.ParseStr Common.ParseStrFacts Model.Parse Model.XyzText Proofs.Parse Proofs.XyzText.
+From Molli Require Import Gen.XyzElements.
+Import ListNotations.
+
+Definition names := conv_names element_names.
+Definition syms := conv_syms element_symbols.
+
+(* ---------------------------------------------------------------- totality / progress *)
+(* the model readers are total functions and consume exactly one line per step: this IS their definition *)
+Theorem C10_total_xyz : forall ls, read_xyz ls = xfinish (fold_left xstep ls xinit).
+Proof. reflexivity. Qed.
+Theorem C10_total_mol2 : forall ls, read_mol2 true ls = m2finish true (fold_left (m2step true) ls (m2init)).
+Proof. reflexivity. Qed.
+
+(* ---------------------------------------------------------------- counts, for EVERY input text *)
+(* every molecule the xyz reader returns has exactly the atoms its own count line declares *)
+Theorem C10_counts_xyz : forall zero_ok vocab ls ms, load_xyz_lines zero_ok vocab ls = Ok ms -> Forall mol_ok ms.
+Proof. exact load_xyz_counts. Qed.
+Print Assumptions C10_counts_xyz.
+(* every block / molecule the (repaired) mol2 reader returns has exactly the atom and bond records its own header declares *)
+Theorem C10_counts_mol2_blocks : forall ls bs, read_mol2 true ls = Ok bs -> Forall m2block_ok bs.
+Proof. exact read_mol2_counts. Qed.
+Theorem C10_counts_mol2 : forall atype btype ls ms, load_mol2_lines true atype btype ls = Ok ms -> Forall mol2_ok ms.
+Proof. exact load_mol2_counts. Qed.
+Print Assumptions C10_counts_mol2.
+
+(* finding 22 (repaired in /repo): the reader that neither resets the records per molecule nor checks the counts
+   returns the second molecule (3 atoms, 2 bonds declared, BOND section missing) with the ONE bond of the first *)
+Definition f22_text : list str := map s2l
+  ["@<TRIPOS>MOLECULE"; "two"; "2 1 0 0 0"; "SMALL"; "NO_CHARGES"; "";
+   "@<TRIPOS>ATOM"; "1 C 0.0 0.0 0.0 C 1 U"; "2 C 1.0 0.0 0.0 C 1 U"; "@<TRIPOS>BOND"; "1 1 2 1";
+   "@<TRIPOS>MOLECULE"; "three"; "3 2 0 0 0"; "SMALL"; "NO_CHARGES"; "";
+   "@<TRIPOS>ATOM"; "1 C 0.0 0.0 0.0 C 1 U"; "2 C 1.0 0.0 0.0 C 1 U"; "3 C 2.0 0.0 0.0 C 1 U"]%string.
+Theorem C10_counts_refuted_before_repair :
+  (exists bs b, read_mol2 false f22_text = Ok bs /\ nth_error bs 1 = Some b /\
+                mh_nbonds (mk_hdr b) = Some 2%Z /\ List.length (mk_bonds b) = 1%nat) /\
+  (exists e, read_mol2 true f22_text = Err e).
+Proof. split; [do 2 eexists; repeat split; vm_compute; reflexivity | eexists; vm_compute; reflexivity]. Qed.
+
+(* ---------------------------------------------------------------- truncation at every line boundary *)
+Theorem C10_truncate_lines_xyz : forall P zero_ok vocab bs ls ms,
+  xwf_text P bs ls -> load_xyz_lines zero_ok vocab ls = Ok ms -> forall k,
+  (exists e, load_xyz_lines zero_ok vocab (firstn k ls) = Err e) \/
+  (exists j, load_xyz_lines zero_ok vocab (firstn k ls) = Ok (firstn j ms)).
+Proof. exact load_xyz_truncated. Qed.
+Print Assumptions C10_truncate_lines_xyz.
+Theorem C10_truncate_lines_mol2 : forall atype btype bs ls ms,
+  m2wf_text bs ls -> load_mol2_lines true atype btype ls = Ok ms -> forall k,
+  (exists e, load_mol2_lines true atype btype (firstn k ls) = Err e) \/
+  (exists j, load_mol2_lines true atype btype (firstn k ls) = Ok (firstn j ms)).
+Proof. exact load_mol2_truncated. Qed.
+Print Assumptions C10_truncate_lines_mol2.
+(* and the undamaged well-formed text reads as its blocks *)
+Theorem C10_wf_reads_xyz : forall P bs ls, xwf_text P bs ls -> read_xyz ls = Ok bs.
+Proof. exact read_xyz_wf. Qed.
+Theorem C10_wf_reads_mol2 : forall bs ls, m2wf_text bs ls -> bs <> [] -> read_mol2 true ls = Ok bs.
+Proof. exact read_mol2_wf. Qed.
+
+(* ---------------------------------------------------------------- one line deleted / duplicated (xyz) *)
+(* comment_ok: the comment (name) line is not itself an integer -- see C10_comment_hypothesis_needed *)
+Theorem C10_delete_line_xyz : forall zero_ok vocab bs ls i, xwf_text comment_ok bs ls -> (i < List.length ls)%nat ->
+  exists e, load_xyz_lines zero_ok vocab (del_nth i ls) = Err e.
+Proof. exact load_xyz_deleted. Qed.
+Print Assumptions C10_delete_line_xyz.
+Theorem C10_dup_line_xyz : forall zero_ok vocab bs ls i, xwf_text comment_ok bs ls -> (i < List.length ls)%nat ->
+  exists e, load_xyz_lines zero_ok vocab (dup_nth i ls) = Err e.
+Proof. exact load_xyz_duplicated. Qed.
+Print Assumptions C10_dup_line_xyz.
+(* why the hypothesis: with the name "2", deleting the count line of [3; 2; a1; a2; a3] leaves the well-formed text
+   [2; a1; a2; a3], a DIFFERENT complete molecule -- no reader can notice (format limit, like finding 36) *)
+Example C10_comment_hypothesis_needed :
+  let t := map s2l ["3"; "2"; "C 0 0 0"; "H 1 0 0"; "H 2 0 0"]%string in
+  exists ms, load_xyz names (del_nth 0 t) = Ok ms /\ List.length ms = 1%nat.
+Proof. eexists. split; vm_compute; reflexivity. Qed.
+
+(* ---------------------------------------------------------------- texts written by molli (tie T for the vocabulary) *)
+Theorem C10_vocabulary : vocab_ok names syms = true.
+Proof. vm_compute. reflexivity. Qed.
+Theorem C10_written_truncated : forall gs ls, write_xyz syms gs = Some ls -> forall k,
+  (exists e, load_xyz names (firstn k ls) = Err e) \/ (exists j, load_xyz names (firstn k ls) = Ok (firstn j (map geom_mol gs))).
+Proof. intros gs ls. apply written_xyz_truncated. exact C10_vocabulary. Qed.
+Theorem C10_written_deleted : forall gs ls i, Forall name_ok gs -> write_xyz syms gs = Some ls -> (i < List.length ls)%nat ->
+  exists e, load_xyz names (del_nth i ls) = Err e.
+Proof. intros gs ls i. apply written_xyz_deleted. exact C10_vocabulary. Qed.
+Theorem C10_written_duplicated : forall gs ls i, Forall name_ok gs -> write_xyz syms gs = Some ls -> (i < List.length ls)%nat ->
+  exists e, load_xyz names (dup_nth i ls) = Err e.
+Proof. intros gs ls i. apply written_xyz_duplicated. exact C10_vocabulary. Qed.
+Print Assumptions C10_written_deleted.
+Example C10_written_nonvacuous :
+  let gs := [mk_wgeom (s2l "w 1") [mk_watom 8 (true, 0%N) (false, 1234567%N) (true, 99999999999%N);
+                                   mk_watom 17 (false, 5%N) (false, 0%N) (false, 1%N)];
+             mk_wgeom (s2l "second") []] in
+  Forall name_ok gs /\ exists ls, write_xyz syms gs = Some ls /\ List.length ls = 6%nat.
+Proof. split; [repeat constructor|eexists; split; vm_compute; reflexivity]. Qed.
+
+(* ---------------------------------------------------------------- the last record cut anywhere (xyz) *)
+(* the last line replaced by ANY line l' (in particular by each of its prefixes): an error, or the same molecules
+   with the last atom replaced by what l' parses to *)
+Theorem C10_last_line_xyz : forall P bs0 pre0 cl cm als ats n a last l',
+  xwf_text P bs0 pre0 -> parse_int cl = Some n -> n = Z.of_nat (S (List.length ats)) ->
+  Forall2 (fun l a => xyz_atom l = Some a) als ats -> xyz_atom last = Some a ->
+  read_xyz (pre0 ++ cl :: cm :: als ++ [last]) = Ok (bs0 ++ [mk_xblock n (strip cm) (ats ++ [a])]) /\
+  match xyz_atom l' with
+  | None => exists e, read_xyz (pre0 ++ cl :: cm :: als ++ [l']) = Err e
+  | Some a' => read_xyz (pre0 ++ cl :: cm :: als ++ [l']) = Ok (bs0 ++ [mk_xblock n (strip cm) (ats ++ [a'])])
+  end.
+Proof. exact read_xyz_last_line. Qed.
+(* a cut at a token boundary of the last line: an error, or exactly the undamaged result *)
+Theorem C10_truncate_tokens_xyz : forall P bs0 pre0 cl cm als ats n a last l' j,
+  xwf_text P bs0 pre0 -> parse_int cl = Some n -> n = Z.of_nat (S (List.length ats)) ->
+  Forall2 (fun l a => xyz_atom l = Some a) als ats -> xyz_atom last = Some a ->
+  split l' = firstn j (split last) ->
+  (exists e, read_xyz (pre0 ++ cl :: cm :: als ++ [l']) = Err e) \/
+  read_xyz (pre0 ++ cl :: cm :: als ++ [l']) = read_xyz (pre0 ++ cl :: cm :: als ++ [last]).
+Proof. exact read_xyz_cut_token_boundary. Qed.
+(* finding 36 (format limit, recorded): a cut at ANY byte offset b of the last record that is still accepted yields
+   an atom that differs from the original at most in its LAST token, which is then a proper prefix of the
+   original token (3.456700 -> 3.4): symbol, x and y are untouched *)
+Theorem C10_last_token_only : forall last a b a', xyz_atom last = Some a -> xyz_atom (firstn b last) = Some a' ->
+  xa_sym a' = xa_sym a /\ xa_x a' = xa_x a /\ xa_y a' = xa_y a /\
+  (a' = a \/ exists t zt, nth 3 (split last) [] = zt /\ nprefix t zt /\ parse_float t = Some (xa_z a')).
+Proof. exact xyz_atom_cut. Qed.
+Print Assumptions C10_last_token_only.
+Example C10_known_last_token_witness :
+  let last := s2l "C     1.000000     2.000000     3.456700" in
+  exists a a', xyz_atom last = Some a /\ xyz_atom (firstn 35 last) = Some a' /\ xa_z a = FNum false 3456700 (-6) /\
+               xa_z a' = FNum false 34 (-1).
+Proof. do 2 eexists. repeat split; vm_compute; reflexivity. Qed.
+
+(* ---------------------------------------------------------------- partial: deletion / duplication for mol2
+   C10_delete_line_mol2 / C10_dup_line_mol2 (NOT proved as theorems):
+     forall bs ls ms i, m2wf_text' bs ls -> load_mol2_lines true atype btype ls = Ok ms -> i < length ls ->
+       (exists e, load_mol2_lines true atype btype (del_nth i ls) = Err e) \/
+       load_mol2_lines true atype btype (del_nth i ls) = Ok ms            (likewise dup_nth)
+   where m2wf_text' adds: the name line is not a list of integers and not a TRIPOS record, mol_type is not a list of
+   integers.  The 22 line positions of a block were analysed by hand (see DESIGN notes in the final report); on the
+   implementation they are exercised by the correspondence shards (every line of every small base text) and judged
+   by the Python oracle.  What IS proved for mol2: counts on every input, round trip and every line-boundary
+   truncation of every well-formed text. *)
